@@ -44,7 +44,7 @@ def build_all(combos):
 
 
 def owner(why):
-    return "C03" if why.startswith("C03:") else "C08" if why.startswith("C08:") else "C17" if why.startswith("C17:") else "C04"
+    return "C15" if why.startswith("C15:") else "C03" if why.startswith("C03:") else "C08" if why.startswith("C08:") else "C17" if why.startswith("C17:") else "C04"
 
 
 def run_shapes(run, prop, plans):
